@@ -33,12 +33,12 @@ func verifEvent(ev string, args ...interface{}) {
 // plans, 2 findConflict, 3 fields-vs-fragment comparisons, 4 fragment-vs-fragment
 // comparisons, 5 fragment spread collection steps, 6 variable usage walks,
 // 7 selection sets walked by the plan-cache fingerprint.
-var verifCounters [8]atomic.Int64
+var verifCounters [9]atomic.Int64
 
 func verifCount(k int) { verifCounters[k].Add(1) }
 
 // VerifCounters returns a snapshot of the step counters.
-func VerifCounters() (out [8]int64) {
+func VerifCounters() (out [9]int64) {
 	for i := range verifCounters {
 		out[i] = verifCounters[i].Load()
 	}
